@@ -337,11 +337,15 @@ fn gen_record(rng: &mut Rng) -> Record {
             context: (0..n).map(|_| FatStringToken { content: gen_string(rng), kind: gen_token_kind(rng) }).collect(),
         }
     };
-    let when = match rng.below(6) {
+    let when = match rng.below(9) {
         0 => 0,
         1 => -1,
         2 => i64::MAX,
         3 => i64::MIN,
+        // any 64-bit value: beyond 2^53 a detour through floating point would show
+        4 => rng.next_u64() as i64,
+        5 => (1i64 << 53) + 1 + rng.below(1000) as i64,
+        6 => i64::MAX - 1 - rng.below(1000) as i64,
         _ => 1_700_000_000 + rng.below(1_000_000) as i64,
     };
     let mut b = [0u8; 16];
